@@ -1312,8 +1312,9 @@ Value for timeout (%" PRIi64 ") is out of range.", t->timeout.d);
 			xt.errmsz = z;
 			goto fatal;
 		}
-		/* otherwise */
-		timeo = t->timeout.d;
+		/* otherwise, the duration is in milliseconds
+		 * and alarm(2) wants whole seconds */
+		timeo = t->timeout.d / 1000 + !!(t->timeout.d % 1000);
 		goto timeo;
 
 	case VTOD_TYP_DUE: {
